@@ -204,9 +204,11 @@ class Worker(courier_utils.CourierClient):
         self._worker_pool = worker_pool
       return self._worker_pool is worker_pool
 
-  def release(self):
-    """Releases the worker."""
+  def release(self, worker_pool: WorkerPool | None = None):
+    """Releases the worker, when given, only if it is held by `worker_pool`."""
     with self._states_lock:
+      if worker_pool is not None and self._worker_pool is not worker_pool:
+        return
       if self._lock.locked():
         self._lock.release()
       self._worker_pool = None
@@ -281,8 +283,10 @@ class WorkerPool:
   def release_all(self, workers: Iterable[Worker] = ()):
     workers = workers or self._workers
     for worker in workers:
-      if worker.is_available(self):
-        worker.release()
+      # Only release what this pool holds, checked atomically with the release:
+      # a worker that is free (or is released by another thread of this pool)
+      # can be acquired by another pool between a check and the release.
+      worker.release(self)
 
   def wait_until_alive(
       self,
